@@ -839,7 +839,7 @@ int main(int argc, char **argv)
         std::set<uint64_t> outcomes;
         std::vector<int> none;
         abf_explore(c, none, 0, r, stop, nexec, outcomes, cj);
-        r.notes.push_back(cj + ": " + std::to_string(nexec) + " schedules, " + std::to_string(outcomes.size()) + " distinct final data set(s)");
+        if (c.bound > 0) r.notes.push_back(cj + ": " + std::to_string(nexec) + " schedules, " + std::to_string(outcomes.size()) + " distinct final data set(s)");
         if (j < 3) r.sample(cj);
       } else {
         MetaJob const &m = mj[j - abf.size()];
